@@ -9,6 +9,7 @@ import (
 	"io"
 	stdslog "log/slog"
 	"os"
+	"runtime"
 	"os/exec"
 	"strings"
 	"syscall"
@@ -96,6 +97,11 @@ type c12case struct {
 	InheritChain bool `json:"inherit_flag_and_a_bare_logger_in_the_middle_of_the_chain,omitempty"`
 	// the message has three lines, the second of them 64 KiB long or longer: the record is complete all the same
 	LongLine bool `json:"message_with_a_continuation_line_of_64KiB_or_more,omitempty"`
+	// the caller flag was taken away (records without the caller column): presentation, the record is as complete as before
+	NoCaller bool `json:"caller_flag_removed,omitempty"`
+	// the application gave the source file of the call site a short name (AddKnownPathMapping with the FILE as the path,
+	// as one does for a generated or vendored file): presentation
+	KnownFile bool `json:"known_path_mapping_for_the_source_file_of_the_call_site,omitempty"`
 }
 
 // c12longTail is what follows the base text in the LongLine cells
@@ -367,6 +373,24 @@ func c12enumerate() []c12case {
 			out = append(out, x)
 		}
 	}
+	// round 16: the same three-line message without the caller column; a known-path mapping that names the very file of
+	// the call site (every format)
+	d = 0
+	for _, b := range base {
+		if b.Format == "color" && b.Admit {
+			x := b
+			x.LongLine, x.NoCaller = true, true
+			out = append(out, x)
+		}
+		if b.Admit && d%2 == 0 {
+			x := b
+			x.KnownFile = true
+			out = append(out, x)
+		}
+		if b.Admit {
+			d++
+		}
+	}
 	return out
 }
 
@@ -446,6 +470,13 @@ func c12exec(c *Ctx, out string) {
 	}
 	if cs.LeadingBreak {
 		c12msg = "\n" + c12msgBase
+	}
+	if cs.NoCaller {
+		slog.RemoveFlags(slog.Lcaller)
+	}
+	if cs.KnownFile {
+		_, file, _, _ := runtime.Caller(0) // (the calls of this probe process are made in this file)
+		slog.AddKnownPathMapping(file, "c12-call-site.go")
 	}
 	if cs.LongLine {
 		c12msg = c12msgBase + c12longTail
